@@ -66,6 +66,8 @@ var sizeFuncs = map[string]bool{
 	"unicode/utf8.RuneCountInString": true, "unicode/utf8.RuneCount": true, "strings.Count": true, "strings.Index": true,
 	"strings.LastIndex": true, "strings.IndexByte": true, "strings.IndexRune": true, "strings.IndexAny": true,
 	"(*strings.Builder).Len": true, "unicode/utf8.RuneLen": true,
+	"slices.Index": true, "slices.IndexFunc": true, "strings.IndexFunc": true, "strings.LastIndexByte": true, "strings.LastIndexFunc": true,
+	"slices.BinarySearch": true, "slices.BinarySearchFunc": true,
 }
 
 func (a *boundAn) bounded(v ssa.Value, b *ssa.BasicBlock, extra []condFact, ub bool) bool {
